@@ -105,7 +105,7 @@ class C07(Prop):
                 rx.setdefault(int(m.group(1)), "")
                 rx[int(m.group(1))] += m.group(2)
             m = re.match(r"^f(\d+)$", op)
-            if m and int(m.group(1)) % 4 == 0 and int(m.group(1)) not in rx and role == "server":
+            if m and int(m.group(1)) % 4 == 0 and int(m.group(1)) not in rx:
                 faulted.add(int(m.group(1)))
         good = GOOD_REQ if role == "server" else GOOD_RESP
         sids = sorted({s for s in list(per) + list(rx) if s % 4 == 0})
@@ -174,7 +174,7 @@ class C07(Prop):
         use_over = rng.random() < 0.3
         cfg = "g0,seed=%d" % rng.randrange(1, 10000) + (",mfs=200" if use_over else "")
         good = GOOD_REQ if server else GOOD_RESP
-        kinds = ["none", "reset", "stop", "malformed"] + (["oversized"] if use_over else []) + (["finfirst"] if server else [])
+        kinds = ["none", "reset", "stop", "malformed", "finfirst"] + (["oversized"] if use_over else [])
         plans = []
         pre = ["conn.AL", "o2", "s2:000400"] if server else ["drv.W", "o3", "s3:000400"]
         chosen = [rng.choice(kinds) for _ in range(k)]
